@@ -778,9 +778,24 @@ func (g *hlGen) build(kind string, ev *eval.BlockEvaluator) []*txntest.Txn {
 		a := apps[r.Intn(len(apps))]
 		bal := m.acct(rnd, a.idx.Address()).MicroAlgos.Raw
 		t := txntest.Txn{Type: protocol.ApplicationCallTx, ApplicationID: a.idx, Sender: g.funded(), Fee: 2000, Accounts: []basics.Address{g.anyAddr()}}
-		if r.Chance(1, 8) {
+		switch {
+		case r.Chance(1, 8):
 			t.ApplicationArgs = [][]byte{[]byte("iclose")}
-		} else {
+		case r.Chance(1, 3):
+			// spend the app account down to exactly the minimum balance the LEDGER believes it has (from the
+			// account's own counters), or one microAlgo below it (must be refused)
+			ad := m.acct(rnd, a.idx.Address())
+			p := ev.ConsensusParams()
+			minb := ad.MinBalance(&p).Raw
+			amt := uint64(0)
+			if bal > minb {
+				amt = bal - minb
+			}
+			if r.Chance(1, 4) {
+				amt++
+			}
+			t.ApplicationArgs = [][]byte{[]byte("ipay"), u64(amt)}
+		default:
 			t.ApplicationArgs = [][]byte{[]byte("ipay"), u64(g.amount(bal))}
 		}
 		return one(t)
